@@ -96,8 +96,10 @@ def hll_layout(st):
 
 # ------------------------------------------------------------------------------------------------ Bloom
 def bloom_states():
-    for empty in (True, False):
-        yield {"empty": empty, "nh": 5, "seed": 9001, "words": 4, "bits": 0 if empty else 17}
+    yield {"empty": True, "nh": 5, "seed": 9001, "words": 4, "bits": 0}
+    # boundary bit counts: one bit, a whole word, an odd count, every bit of the filter set (inverted / saturated filter)
+    for bits in (17, 1, 64, 255, 256):
+        yield {"empty": False, "nh": 5, "seed": 9001, "words": 4, "bits": bits}
 
 
 def bloom_layout(st):
